@@ -60,6 +60,10 @@ type Core struct {
 	Executor     value.Executor
 	Corenum      uint
 	SignalHandle chan *value.VmInterrupt
+	// Closed when the core has executed its last instruction: whoever joins the thread waits for this.
+	// `ended` is written before and tells how it ended (nil: normally, its result is on top of its stack).
+	finished chan struct{}
+	ended    *value.VmInterrupt
 
 	// A `stack` of labels to jump to if an exception is raised
 	ExceptionCatchLabels []CatchLabel
@@ -100,11 +104,19 @@ func NewCore(
 		Executor:             executor,
 		Corenum:              coreNum,
 		SignalHandle:         handle,
+		finished:             make(chan struct{}),
 		ExceptionCatchLabels: []CatchLabel{},
 		MemoryPointer:        0,
 		CancelCtx:            ctx,
 		Limits:               limits,
 	}
+}
+
+// Ends the core: threads which join this one may go on, then the interrupt (nil after a normal end) is handed to `Wait`.
+func (self *Core) finish(i *value.VmInterrupt) {
+	self.ended = i
+	close(self.finished)
+	self.SignalHandle <- i
 }
 
 func (core *Core) push(v *value.Value) {
@@ -183,29 +195,29 @@ outer:
 		// Check cancelation
 		if i := self.checkCancelation(); i != nil {
 			vh("Offer", int64(self.Corenum), vhKind(i))
-			self.SignalHandle <- i
+			self.finish(i)
 			return
 		}
 
 		// Check for stack overflow
 		if len(self.Stack) > int(self.Limits.StackMaxSize) {
 			vh("Offer", int64(self.Corenum), "fatal")
-			self.SignalHandle <- self.fatalErr(
+			self.finish(self.fatalErr(
 				fmt.Sprintf("Runtime stack limit of %d was exceeded by %d", self.Limits.StackMaxSize, len(self.Stack)-int(self.Limits.StackMaxSize)),
 				value.VMFatalExceptionKind(value.Vm_StackOverFlowErrorKind),
 				self.parent.SourceMap(*self.callFrame()),
-			)
+			))
 			return
 		}
 
 		// Check for callstack overflows
 		if len(self.CallStack) > int(self.Limits.CallStackMaxSize) {
 			vh("Offer", int64(self.Corenum), "fatal")
-			self.SignalHandle <- self.fatalErr(
+			self.finish(self.fatalErr(
 				fmt.Sprintf("Runtime callstack limit of %d was exceeded by %d", self.Limits.CallStackMaxSize, len(self.CallStack)-int(self.Limits.CallStackMaxSize)),
 				value.Vm_StackOverFlowErrorKind,
 				self.parent.SourceMap(*self.callFrame()),
-			)
+			))
 			return
 		}
 
@@ -323,7 +335,7 @@ outer:
 					// If there is no catch-block, terminate this core
 					if len(self.ExceptionCatchLabels) == 0 {
 						vh("Offer", int64(self.Corenum), "fatal")
-						self.SignalHandle <- self.fatalErr(throwError.Message(), value.Vm_UncaughtThrowKind, throwError.Span)
+						self.finish(self.fatalErr(throwError.Message(), value.Vm_UncaughtThrowKind, throwError.Span))
 						return
 					}
 
@@ -345,7 +357,7 @@ outer:
 						}))
 				default:
 					vh("Offer", int64(self.Corenum), vhKind(i))
-					self.SignalHandle <- i // TODO: add universal stacktrace
+					self.finish(i) // TODO: add universal stacktrace
 					return
 				}
 			}
@@ -353,5 +365,5 @@ outer:
 	}
 
 	vh("Offer", int64(self.Corenum), "nil")
-	self.SignalHandle <- nil
+	self.finish(nil)
 }
